@@ -2,6 +2,7 @@ import VlsModel.Model.Hmac
 import VlsModel.Gen.HmacFn
 import VlsModel.Gen.FnPersistMod
 import VlsModel.Gen.FnPersistMut
+import VlsModel.Gen.FnPersistDflt
 import VlsModel.Gen.FnHmacRs
 import VlsModel.Gen.FnLssUtil
 import VlsModel.Gen.FnLssFront
@@ -790,5 +791,23 @@ open VlsModel.Gen.FnPersistDummy in
 theorem C17_fn_memseed_list (s : MemorySeedPersister) : s.list = [] := rfl
 open VlsModel.Gen.FnPersistDummy in
 theorem C17_fn_simple_entropy_new : SimpleEntropy.new = ({} : SimpleEntropy) := rfl
+
+/-! ## Round 10 (b7): the remaining defaults of `Persist` and the two refusing getters of `DummyPersister` (`Gen/FnPersistDflt.lean`)
+
+A persister that does not override them can neither take a batch of mutations outside a transaction nor start a
+replication: both defaults **panic** (`unimplemented!`) for every receiver and argument — no mutation list is ever
+accepted or produced silently by a non-KVV persister.  `DummyPersister::get_tracker/get_channel` refuse with
+`Error::Internal` whatever is asked (the dummy persister never returns state it did not store). -/
+theorem C17_fn_persist_default_put_batch_unlogged {S : Type} (s : S) (m : List RsRec) :
+    Gen.FnPersistDflt.Persist.put_batch_unlogged s m = .error .panic := rfl
+theorem C17_fn_persist_default_begin_replication {S : Type} (s : S) :
+    Gen.FnPersistDflt.Persist.begin_replication s = .error .panic := rfl
+theorem C17_fn_dummy_get_tracker {S P V T L : Type} (s : S) (n : P) (v : V) :
+    Gen.FnPersistDflt.DummyPersister.get_tracker (ChainTracker := T) (ChainTrackerListenerEntry := L) s n v
+      = .error (.err "Error::Internal") := rfl
+theorem C17_fn_dummy_get_channel {S P I E : Type} (s : S) (n : P) (i : I) :
+    Gen.FnPersistDflt.DummyPersister.get_channel (ChannelEntry := E) s n i = .error (.err "Error::Internal") := rfl
+example : Gen.FnPersistDflt.Persist.put_batch_unlogged () [("a", (0, [1]))] = .error .panic :=
+  C17_fn_persist_default_put_batch_unlogged () _
 
 end VlsModel.Props.C17Fn
